@@ -211,9 +211,27 @@ fn op_seq(ctx: &mut Ctx, a: &[u8], b: &[u8]) {
         let p = HttpProcessors::new();
         let _ = p.parse_request(&x);
         let _ = p.parse_response(&x);
-        show_oreq(&p.parse_request(&y))
+        // after A on the same processors  @@  on a fresh instance
+        format!("{} @@ {}", show_oreq(&p.parse_request(&y)), show_oreq(&HttpProcessors::new().parse_request(&y)))
     });
     let mut l = Line::op("C16.seq");
+    l.bytes(a).bytes(b);
+    ctx.emit(l.finish(&out));
+}
+/// like `op_seq`, but B is a server stream (no preface) handed to `parse_response`: the response path
+/// must start from an empty HPACK table of the default size too, whatever A left behind
+fn op_seqr(ctx: &mut Ctx, a: &[u8], b: &[u8]) {
+    if !h1_rejects(b) {
+        return;
+    }
+    let (x, y) = (a.to_vec(), b.to_vec());
+    let out = guarded(move || {
+        let p = HttpProcessors::new();
+        let _ = p.parse_request(&x);
+        let _ = p.parse_response(&x);
+        format!("{} @@ {}", show_oresp(&p.parse_response(&y)), show_oresp(&HttpProcessors::new().parse_response(&y)))
+    });
+    let mut l = Line::op("C16.seqr");
     l.bytes(a).bytes(b);
     ctx.emit(l.finish(&out));
 }
@@ -643,6 +661,46 @@ fn witnesses(ctx: &mut Ctx) {
     let bb = ser(&frame_block(&[0x82, 0x84, 0xbe], &f0), true);
     op_seq(ctx, &a, &bb);
     op_oreq(ctx, &bb);
+    // the same leak on the response path: B is a server stream whose block refers to dynamic entry 62
+    // (invalid against a fresh table); and a table-size update left behind by A (size 0 / size 32)
+    // followed by a response that relies on the default 4096-octet table
+    let rb = ser(&frame_block(&[0x88, 0xbe], &f0), false);
+    op_seqr(ctx, &a, &rb);
+    op_oresp(ctx, &rb);
+    for upd in [vec![0x20u8], vec![0x3f, 0x01]] {
+        let a2 = {
+            let mut blk = upd.clone();
+            blk.extend_from_slice(&[0x82, 0x84, 0x87]);
+            ser(&frame_block(&blk, &f0), true)
+        };
+        let rb2 = {
+            // :status 200, literal with incremental indexing (new name) x-long: 40 bytes, then index 62
+            let mut blk = vec![0x88, 0x40, 0x06];
+            blk.extend_from_slice(b"x-long");
+            blk.push(40);
+            blk.extend_from_slice(&[b'v'; 40]);
+            blk.push(0xbe);
+            ser(&frame_block(&blk, &f0), false)
+        };
+        op_seqr(ctx, &a2, &rb2);
+        op_oresp(ctx, &rb2);
+        // and the other way round: a response that shrinks the table, then a request relying on the default
+        let ra = {
+            let mut blk = upd.clone();
+            blk.push(0x88);
+            ser(&frame_block(&blk, &f0), false)
+        };
+        let qb = {
+            let mut blk = vec![0x82, 0x84, 0x87, 0x40, 0x06];
+            blk.extend_from_slice(b"x-long");
+            blk.push(40);
+            blk.extend_from_slice(&[b'v'; 40]);
+            blk.push(0xbe);
+            ser(&frame_block(&blk, &f0), true)
+        };
+        op_seq(ctx, &ra, &qb);
+        op_seqr(ctx, &ra, &rb2);
+    }
 }
 
 pub fn run(ctx: &mut Ctx) {
@@ -787,6 +845,9 @@ pub fn run(ctx: &mut Ctx) {
         if i % 10 == 0 {
             let m2 = gen_message(&mut r, true);
             op_seq(ctx, &m.bytes, &m2.bytes);
+            let m3 = gen_message(&mut r, false);
+            op_seqr(ctx, &m.bytes, &m3.bytes);
+            op_seqr(ctx, &m2.bytes, &m3.bytes);
         }
     }
     // accept-language values
